@@ -634,7 +634,7 @@ ASSUMPTIONS = ['stub dbus/GLib (harness/stubs) stand in for dbus-python and GLib
                'TLS off; enable_test empty; segment-size modulation off (modelled rather than verified: see DESIGN.md section 8)']
 
 
-def run_check(prop_id, build, evaluate, rule, rebuild_record=None, extra_props=('Props/TcpclTie.v',)):
+def run_check(prop_id, build, evaluate, rule, rebuild_record=None, extra_props=('Props/TcpclTie.v',), search=None):
     ''' Standard shape of a TCPCL property check:
     proofs -> schedules on the real code -> model correspondence -> oracle. '''
     import json
@@ -670,6 +670,12 @@ def run_check(prop_id, build, evaluate, rule, rebuild_record=None, extra_props=(
     chk.obligation('correspondence:tcpcl-session-model (per-op state digest, wire octets, D-Bus events, exceptions)',
                    diffs == [], detail)
     evaluate(chk, recs)
+    broken = diffs or any(not okay for (_n, okay, _d) in chk.obligations)
+    if broken and not chk.violations and search is not None and not chk.args.replay:
+        # a proof obligation or the correspondence broke: look harder for a concrete failing input
+        # (oracle only, ten times the budget) before reporting no-failing-input-found
+        chk.coverage['search_after_break'] = True
+        evaluate(chk, search(chk))
     if diffs and not chk.violations:
         for (rec, e, diff) in diffs[:2]:
             chk.fail('correspondence', 'model and implementation disagree at endpoint %s: %r' % (e, diff),
